@@ -5,6 +5,7 @@ classes: every mutator invalidates, every cache hit is keyed, eq/hash read consi
 nobody outside the owner writes the private state.  Decided for all histories (all code paths);
 numeric equality of recomputed values is trusted to determinism."""
 import ast
+from fractions import Fraction as Fr
 from svtstatic.cfg import CFG, EXIT, ENTRY, RAISE, describe, guards_of, walk_no_nested, enclosing_stmt
 from .common import *
 
@@ -423,48 +424,70 @@ def _conj_guards(stmt, func):
 
 
 def _check_length_info_cache(ctx, fi, keyparams, kinds):
-    func = fi.node
-    rets = [n for n in walk_no_nested(func) if isinstance(n, ast.Return) and n.value is not None
-            and any(_is_li(x, 'length') for x in ast.walk(n.value))]
-    if not rets:
-        ctx.record('R16.3', fi.qualname, 'no cached return', True, detail='method does not return a cached value',
-                   where=where(fi), nontrivial=False)
-        return
-    for r in rets:
-        blk = _block_of(r)
-        idx = blk.index(r)
-        filled = {t.slice.value for s in blk[:idx] if isinstance(s, ast.Assign) for t in s.targets if _is_li(t)}
-        if 'length' in filled:
-            need = {'length', 'bpoints'} | set(keyparams)
-            ok = need <= filled
-            # the stored key must be the current control points
-            for s in blk[:idx]:
-                if isinstance(s, ast.Assign) and any(_is_li(t, 'bpoints') for t in s.targets):
-                    if norm(s.value) != 'self.bpoints()':
-                        ok = False
-            ctx.record('R16.3', fi.qualname, 'fill@%s' % norm(r)[:50], ok,
-                       detail='' if ok else 'cache fill does not write all of %s (writes %s) or keys on something else than self.bpoints()' % (sorted(need), sorted(filled)),
-                       where=where(fi, r))
-            continue
-        g = _conj_guards(r, func)
-        keyed = any(pol and isinstance(t, ast.Compare) and len(t.ops) == 1 and isinstance(t.ops[0], ast.Eq) and
-                    {norm(t.left), norm(t.comparators[0])} == {"self._length_info['bpoints']", 'self.bpoints()'}
-                    for t, pol in g)
-        problems = []
-        if not keyed:
-            problems.append("hit not guarded by self._length_info['bpoints'] == self.bpoints()")
-        for p in keyparams:
-            res = None
-            for t, pol in g:
-                d = _guard_direction_ok(t, pol, lambda x, p=p: _is_li(x, p), p, kinds.get(p))
-                if d is not None:
-                    res = d
-            if res is None:
-                problems.append('hit does not depend on the cached %s' % p)
-            elif res is False:
-                problems.append('guard on %s has the wrong direction for a %s parameter' % (p, kinds.get(p)))
-        ctx.record('R16.3', fi.qualname, 'hit@%s' % norm(r)[:50], not problems, detail='; '.join(problems),
-                   where=where(fi, r), sample={'guards': [('' if pol else 'not ') + norm(t) for t, pol in g]})
+    """semantic: run length() on a segment whose cache holds a STALE entry (value LC measured for control points K with tolerances
+    EC/MC) and look at every label path: LC may be returned only where the path knows K == current control points and that the
+    cached tolerances are at least as strict as the requested ones; a cache that was written must describe the current state"""
+    mdl = ctx.model
+    cname = fi.cls.name
+    n = {'QuadraticBezier': 3, 'CubicBezier': 4}[cname]
+    P, K = cpoints(n, 'P'), cpoints(n, 'K')
+    LC, EC, MC, E, M = [Rat.sym(x) for x in ('LCACHED', 'ECACHED', 'MCACHED', 'EREQ', 'MREQ')]
+    req = {'error': E, 'min_depth': M}
+    cached = {'error': EC, 'min_depth': MC}
+    for t0, t1 in ((0, 1), (1, 0), (0, Fr(1, 2))):
+        def th(it, t0=t0, t1=t1):
+            seg = it.construct('path.' + cname, *P)
+            info = {'length': LC, 'bpoints': tuple(K)}
+            info.update(cached)
+            seg.attrs['_length_info'] = info
+            r = it.call_method(seg, 'length', Rat.const(t0), Rat.const(t1), **req)
+            return r, seg, it
+
+        def judge(v, t0=t0, t1=t1):
+            r, seg, it = v
+            info = seg.attrs.get('_length_info')
+            if not isinstance(info, dict):
+                return None, '_length_info is no longer a dict'
+            try:
+                hit = 'LCACHED' in to_rat(r).key()       # the result depends on the stale entry
+            except Exception:
+                return None, 'length() does not return a number: %r' % (r,)
+            probs = []
+            if hit:
+                if (t0, t1) == (0, Fr(1, 2)):
+                    probs.append('the cached full length is returned for the partial interval [0, 1/2]')
+                if not all(path_sign(it, K[i] - P[i]) == frozenset('0') for i in range(n)):
+                    probs.append('the cached length is returned on a path that does not know the cached control points to equal the current ones')
+                for p_ in keyparams:
+                    sg = path_sign(it, cached[p_] - req[p_])
+                    want = frozenset('-0') if kinds.get(p_) == 'tolerance' else frozenset('0+')
+                    if not sg <= want:
+                        probs.append('the cached length is returned without knowing that the cached %s is %s the requested one' % (
+                            p_, 'at most' if kinds.get(p_) == 'tolerance' else 'at least'))
+            # state of the cache afterwards
+            ln = info.get('length')
+            if not (isinstance(ln, Rat) and ln.equals(LC)):
+                # the cache was (re)filled
+                if (t0, t1) == (0, Fr(1, 2)):
+                    probs.append('a partial length is stored in the full-length cache')
+                bp = info.get('bpoints')
+                if not (isinstance(bp, tuple) and len(bp) == n and all(to_rat(bp[i]).equals(P[i]) for i in range(n))):
+                    probs.append('the cache is filled without keying it on the current control points')
+                if not (isinstance(r, Rat) and isinstance(ln, Rat) and (r is ln or r.key() == ln.key())):
+                    probs.append('the stored length is not the returned one')
+                for p_ in keyparams:
+                    if not (isinstance(info.get(p_), Rat) and info[p_].equals(req[p_])):
+                        probs.append('the cache is filled without recording the requested %s' % p_)
+            else:
+                bp = info.get('bpoints')
+                same_key = isinstance(bp, tuple) and len(bp) == n and all(to_rat(bp[i]).equals(K[i]) for i in range(n))
+                if not same_key and not all(path_sign(it, K[i] - P[i]) == frozenset('0') for i in range(n)):
+                    probs.append('the key of the cache is changed while the stale length stays in it')
+            return not probs, '; '.join(probs)
+        Obligation(ctx, 'R16.3').run(fi, 'length(%s, %s) on a segment with a stale cache entry' % (t0, t1), th, judge,
+                                     allowed_raises=('AssertionError',),
+                                     opts={'call_hooks': {'path.segment_length': lambda it, a, k: Rat.sym('FRESH')},
+                                           'globals': {('path', '_quad_available'): False}, 'presign': [(LC, '+')]})
 
 
 def _block_of(stmt):
